@@ -109,3 +109,126 @@ theorem sumN_congr [Add α] [Zero α] (f g : Nat → α) : ∀ n, (∀ k, k < n 
   | 0, _ => rfl
   | n + 1, h => by
     simp only [sumN]; rw [sumN_congr f g n (fun k hk => h k (by omega)), h n (by omega)]
+
+/-! ## `rev`, `unflatF`, `invPerm`, `allBelow`/`anyBelow`, `prodN` vs `prodFn` (appended for C01) -/
+
+theorem rev_lt (n k : Nat) (hk : k < n) : rev n k < n := by unfold rev; omega
+
+theorem rev_rev (n k : Nat) (hk : k < n) : rev n (rev n k) = k := by unfold rev; omega
+
+/-- F-order digit `m` = big-endian digit `rev n m` with respect to the reversed shape. -/
+theorem unflatF_eq_dec_rev : ∀ n (s : Nat → Nat) (j m : Nat), m < n →
+    unflatF s j m = dec (fun k => s (rev n k)) n j (rev n m)
+  | 0, _, _, m, hm => by omega
+  | n + 1, s, j, m, hm => by
+    simp only [dec]
+    split
+    · next h =>
+      have hm0 : m = 0 := by unfold rev at h; omega
+      subst hm0
+      simp [unflatF, prodN, rev]
+    · next h =>
+      have hm1 : 1 ≤ m := by unfold rev at h; omega
+      have ih := unflatF_eq_dec_rev n (fun k => s (k + 1)) (j / s 0) (m - 1) (by omega)
+      have e1 : unflatF s j m = unflatF (fun k => s (k + 1)) (j / s 0) (m - 1) := by
+        unfold unflatF
+        have hm' : m = (m - 1) + 1 := by omega
+        rw [Nat.div_div_eq_div_mul, ← prodN_succ_shift]
+        show j / prodN s m % s m = j / prodN s (m - 1 + 1) % s (m - 1 + 1)
+        rw [← hm']
+      have e2 : rev (n + 1) m = rev n (m - 1) := by unfold rev; omega
+      have e3 : s (rev (n + 1) n) = s 0 := by simp [rev]
+      rw [e1, ih, e2, e3]
+      apply dec_congr
+      intro k hk
+      show s (rev n k + 1) = s (rev (n + 1) k)
+      congr 1; unfold rev; omega
+
+theorem invPerm_go_spec (p : Nat → Nat) (m : Nat) : ∀ f k,
+    k ≤ invPerm.go p m f k ∧ invPerm.go p m f k ≤ k + f ∧
+    (∀ i, k ≤ i → i < invPerm.go p m f k → p i ≠ m) ∧
+    (invPerm.go p m f k < k + f → p (invPerm.go p m f k) = m)
+  | 0, k => by simp [invPerm.go]; intro i h1 h2; omega
+  | f + 1, k => by
+    simp only [invPerm.go]
+    split
+    · next h => refine ⟨by omega, by omega, ?_, fun _ => h⟩; intro i h1 h2; omega
+    · next h =>
+      obtain ⟨h1, h2, h3, h4⟩ := invPerm_go_spec p m f (k + 1)
+      refine ⟨by omega, by omega, ?_, fun hlt => h4 (by omega)⟩
+      intro i hi1 hi2
+      by_cases hik : i = k
+      · subst hik; exact h
+      · exact h3 i (by omega) hi2
+
+theorem invPerm_le (n : Nat) (p : Nat → Nat) (m : Nat) : invPerm n p m ≤ n := by
+  have := (invPerm_go_spec p m n 0).2.1; simpa [invPerm] using this
+
+theorem invPerm_min (n : Nat) (p : Nat → Nat) (m i : Nat) (hi : i < invPerm n p m) : p i ≠ m :=
+  (invPerm_go_spec p m n 0).2.2.1 i (Nat.zero_le _) hi
+
+theorem invPerm_apply (n : Nat) (p : Nat → Nat) (m : Nat) (h : invPerm n p m < n) :
+    p (invPerm n p m) = m :=
+  (invPerm_go_spec p m n 0).2.2.2 (by simpa [invPerm] using h)
+
+/-- if some position `< n` hits `m`, `invPerm` finds one -/
+theorem invPerm_lt_of_hit (n : Nat) (p : Nat → Nat) (m k : Nat) (hk : k < n) (hpk : p k = m) :
+    invPerm n p m ≤ k ∧ invPerm n p m < n ∧ p (invPerm n p m) = m := by
+  have h1 : invPerm n p m ≤ k := by
+    rcases Nat.lt_or_ge k (invPerm n p m) with h | h
+    · exact absurd hpk (invPerm_min n p m k h)
+    · exact h
+  have h2 : invPerm n p m < n := by omega
+  exact ⟨h1, h2, invPerm_apply n p m h2⟩
+
+/-- for `p` injective on `0..n-1`, `invPerm n p m` is *the* position `k < n` with `p k = m` -/
+theorem invPerm_eq_of (n : Nat) (p : Nat → Nat)
+    (hinj : ∀ a b, a < n → b < n → p a = p b → a = b) (m k : Nat) (hk : k < n) (hpk : p k = m) :
+    invPerm n p m = k := by
+  obtain ⟨_, h2, h3⟩ := invPerm_lt_of_hit n p m k hk hpk
+  exact hinj _ _ h2 hk (by rw [h3, hpk])
+
+theorem invPerm_go_congr (p q : Nat → Nat) (m : Nat) : ∀ f k, (∀ i, k ≤ i → i < k + f → p i = q i) →
+    invPerm.go p m f k = invPerm.go q m f k
+  | 0, _, _ => rfl
+  | f + 1, k, h => by
+    simp only [invPerm.go]
+    rw [h k (by omega) (by omega), invPerm_go_congr p q m f (k + 1) (fun i h1 h2 => h i (by omega) (by omega))]
+
+theorem invPerm_congr (n : Nat) (p q : Nat → Nat) (m : Nat) (h : ∀ k, k < n → p k = q k) :
+    invPerm n p m = invPerm n q m :=
+  invPerm_go_congr p q m n 0 (fun i _ hi => h i (by omega))
+
+theorem allBelow_iff (q : Nat → Bool) : ∀ n, allBelow n q = true ↔ ∀ k, k < n → q k = true
+  | 0 => by simp [allBelow]
+  | n + 1 => by
+    simp only [allBelow, Bool.and_eq_true, allBelow_iff q n]
+    constructor
+    · rintro ⟨h1, h2⟩ k hk
+      by_cases hkn : k = n
+      · subst hkn; exact h2
+      · exact h1 k (by omega)
+    · intro h; exact ⟨fun k hk => h k (by omega), h n (by omega)⟩
+
+theorem anyBelow_iff (q : Nat → Bool) : ∀ n, anyBelow n q = true ↔ ∃ k, k < n ∧ q k = true
+  | 0 => by simp [anyBelow]
+  | n + 1 => by
+    simp only [anyBelow, Bool.or_eq_true, anyBelow_iff q n]
+    constructor
+    · rintro (⟨k, hk, h⟩ | h)
+      · exact ⟨k, by omega, h⟩
+      · exact ⟨n, by omega, h⟩
+    · rintro ⟨k, hk, h⟩
+      by_cases hkn : k = n
+      · subst hkn; exact Or.inr h
+      · exact Or.inl ⟨k, by omega, h⟩
+
+theorem prodN_eq_prodFn (d : Nat → Nat) : ∀ n, prodN d n = prodFn n d
+  | 0 => rfl
+  | n + 1 => by simp only [prodN, prodFn, prodN_eq_prodFn d n]
+
+theorem prodFn_congr [Mul α] [One α] (f g : Nat → α) : ∀ n, (∀ k, k < n → f k = g k) →
+    prodFn n f = prodFn n g
+  | 0, _ => rfl
+  | n + 1, h => by
+    simp only [prodFn]; rw [prodFn_congr f g n (fun k hk => h k (by omega)), h n (by omega)]
